@@ -37,6 +37,10 @@ type rqPool struct {
 	shut     []string
 	forgot   []string
 	itID     map[string]int
+	// optional scripting (C15 fixStaleLocks stage)
+	cwHook  func() map[worker.State]int
+	runHook func() map[string]time.Time
+	subCh   chan struct{}
 }
 
 func rqNext(l *[]bool) bool {
@@ -51,6 +55,9 @@ func rqNext(l *[]bool) bool {
 }
 
 func (p *rqPool) Running() map[string]time.Time {
+	if p.runHook != nil {
+		return p.runHook()
+	}
 	p.Lock()
 	defer p.Unlock()
 	r := map[string]time.Time{}
@@ -69,6 +76,9 @@ func (p *rqPool) Unallocated() map[arvados.InstanceType]int {
 	return r
 }
 func (p *rqPool) CountWorkers() map[worker.State]int {
+	if p.cwHook != nil {
+		return p.cwHook()
+	}
 	p.Lock()
 	defer p.Unlock()
 	r := map[worker.State]int{}
@@ -119,7 +129,12 @@ func (p *rqPool) ForgetContainer(uuid string) {
 	defer p.Unlock()
 	p.forgot = append(p.forgot, gN(rqUUIDNum(uuid)))
 }
-func (p *rqPool) Subscribe() <-chan struct{}  { return make(chan struct{}) }
+func (p *rqPool) Subscribe() <-chan struct{} {
+	if p.subCh != nil {
+		return p.subCh
+	}
+	return make(chan struct{})
+}
 func (p *rqPool) Unsubscribe(<-chan struct{}) {}
 
 type rqQueue struct {
@@ -131,9 +146,13 @@ type rqQueue struct {
 	cancels []string
 	forgets []string
 	unlocks []string
+	entHook func() map[string]container.QueueEnt
 }
 
 func (q *rqQueue) Entries() (map[string]container.QueueEnt, time.Time) {
+	if q.entHook != nil {
+		return q.entHook(), q.updated
+	}
 	r := map[string]container.QueueEnt{}
 	for k, v := range q.ents {
 		r[k] = v
